@@ -19,6 +19,13 @@ using bspline::exceptions::ErrorCode;
 using bspline::support::Grid;
 using bspline::support::Support;
 
+// scalar used by the engines: the permissive exact rational, or (C19, -DVF_STRICT) the strict archetype
+#ifdef VF_STRICT
+using DefaultScalar = Q;
+#else
+using DefaultScalar = QP;
+#endif
+
 // ---- grids -------------------------------------------------------------
 inline std::vector<mpq_class> grid_family(const std::string &fam, size_t n) {
   static const std::vector<mpq_class> NU = {mq(-3), mq(-2), mq(0), mq(1, 2), mq(5), mq(6), mq(13, 2), mq(9), mq(21, 2), mq(12)};
